@@ -228,6 +228,10 @@ def orig_log_prior(case, objs, X, radial):
     if kind == "sine+chi":
         o = chi_objs(objs)[0]
         return np.log(np.sin(X[:, 0])) + o.chi.logpdf(radial[:, 0])
+    if kind == "isotropic-ra-dec-radial":     # radius is a model parameter with a flat prior
+        return np.log(np.cos(X[:, names.index("dec")]))
+    if kind == "isotropic-az-zen-radial":
+        return np.log(np.sin(X[:, names.index("dec")]))
     if kind == "isotropic-ra-dec":
         o = chi_objs(objs)[0]
         return np.log(np.cos(X[:, names.index(o.parameters[1])])) + o.chi.logpdf(radial[:, 0])
@@ -427,12 +431,18 @@ def angle_pair_cases(ctx, rng):
                     prior = None
                     if not with_radial and rng.random() < 0.7:
                         kw["prior"] = prior = "isotropic"
+                    elif with_radial and rng.random() < 0.5:
+                        # isotropic angles with the radius a MODEL parameter (uniform here): if a prime prior is offered at all
+                        # it has to be this prior over the Jacobian, not the 3-d Gaussian of the auxiliary-radius case
+                        # (seeded change C07-eB)
+                        kw["prior"] = prior = "isotropic"
                     yield dict(layer="transcendental", kind="angle-pair:" + name + (":radial" if with_radial else ":chi"),
                                site="AnglePair", names=params, bounds=bounds,
                                reparams=[dict(name=name, gw=gw, parameters=list(params), kwargs=kw)], points=rows,
                                radial=radial, fd_rows=fd, fd_cols=["ra", "dec"] + (["dist"] if with_radial else []),
                                fd_reorder=True, update=None, test=None, near_singular_rows=near_rows(rows),
-                               orig_prior=(("isotropic-az-zen" if use_zen else "isotropic-ra-dec") if prior else None))
+                               orig_prior=((("isotropic-az-zen" if use_zen else "isotropic-ra-dec") + ("-radial" if with_radial else ""))
+                                           if prior else None))
 
 
 def gw_cases(ctx, rng):
